@@ -4,13 +4,17 @@
 // range over Keys(m), so that Go's randomized map iteration order becomes a
 // choice the explorer makes ($VERIF_MAPORDER) instead of a coin flip.
 //
-// VERIF_MAPORDER = <mode>[@<j>]
+// VERIF_MAPORDER = <entry>{,<entry>}   entry = <mode>[@<j>]
 //
 //	mode: asc | desc | rot<k> | perm<i> (i-th permutation, factorial number system)
-//	@j  : apply the mode only to the j-th executed loop (0-based); all other
-//	      executions iterate ascending.
+//	@j  : apply the mode only to the j-th executed loop (0-based); executions not
+//	      named by any entry iterate ascending.  An entry without @j applies to
+//	      every execution that no @j entry names.
 //
 // Unset => the native (randomized) order of the Go runtime.
+//
+// VERIF_MAPCOUNT_FILE, when set, receives one line "<number of keys>" per executed
+// loop, so that the explorer knows how many executions there are to deviate.
 package verifseam
 
 import (
@@ -34,16 +38,24 @@ func Keys[K comparable, V any](m map[K]V) []K {
 		return keys
 	}
 	sort.Slice(keys, func(i, j int) bool { return fmt.Sprint(keys[i]) < fmt.Sprint(keys[j]) })
-	mode := spec
-	only := -1
-	if at := strings.IndexByte(spec, '@'); at >= 0 {
-		mode = spec[:at]
-		only, _ = strconv.Atoi(spec[at+1:])
-	}
 	me := execCount
 	execCount++
-	if only >= 0 && only != me {
-		return keys
+	if cf := os.Getenv("VERIF_MAPCOUNT_FILE"); cf != "" {
+		if f, err := os.OpenFile(cf, os.O_APPEND|os.O_CREATE|os.O_WRONLY, 0o644); err == nil {
+			fmt.Fprintf(f, "%d\n", len(keys))
+			f.Close()
+		}
+	}
+	mode := "asc"
+	for _, entry := range strings.Split(spec, ",") {
+		if at := strings.IndexByte(entry, '@'); at >= 0 {
+			if j, _ := strconv.Atoi(entry[at+1:]); j == me {
+				mode = entry[:at]
+				break
+			}
+		} else {
+			mode = entry
+		}
 	}
 	n := len(keys)
 	switch {
